@@ -12,7 +12,8 @@
 From Coq Require Import List Arith NArith ZArith Bool.
 From Coq Require Import String.
 Require Import RV.Model.Base RV.Model.RespWrite RV.Model.Resp.
-Require Import RV.Proofs.RespIOProofs RV.Proofs.RespRoundtrip RV.Proofs.RespC12.
+Require Import RV.Model.RespStream.
+Require Import RV.Proofs.RespIOProofs RV.Proofs.RespRoundtrip RV.Proofs.RespC12 RV.Proofs.RespStreamC29.
 Import ListNotations.
 Open Scope N_scope.
 
@@ -47,6 +48,18 @@ Theorem C12_split_independent_any_program : forall (A : Type) (B : nat) (p : pro
   (fst (fst (run_chunked B p st al)), flat (snd (fst (run_chunked B p st al))), snd (run_chunked B p st al)).
 Proof. intros. apply run_chunked_flat. Qed.
 Print Assumptions C12_split_independent_any_program.
+
+(** streaming reads write exactly the payload bytes that a normal read of a string, integer or float
+    reply returns: [payload v] is what streamTo hands to the writer (C29_bytes_payload), and it is the
+    string / the numeral of the integer of the message [abs v] that readNextMessage decodes (C12_roundtrip) *)
+Theorem C12_stream_payload : forall (B : nat) (v : rv) (p rest : bytes),
+  (32 <= B)%nat -> wf v = true -> payload v = Some p ->
+  stream B None (enc v ++ rest) = ((zlen p, SNone, true), rest, p) /  fst (decode B (enc v ++ rest)) = (Ok (abs v), rest) /  (p = m_str (abs v) \/ p = decZ (m_ival (abs v))).
+Proof.
+  intros B v p rest HB Hwf Hp. split; [now apply stream_payload_top|]. split; [now apply decode_roundtrip|].
+  destruct (payload_is_read v p Hp) as [(_ & _ & H)|(_ & H)]; auto.
+Qed.
+Print Assumptions C12_stream_payload.
 
 (** C14, last clause: the client's own reader decodes a written command to the array of its arguments *)
 Theorem C14_own_reader : forall (B : nat) (argv : list bytes) (rest : bytes),
